@@ -359,7 +359,7 @@ impl Evaluator<'_, '_, '_, '_> {
                 let v = self.evaluate_expr(expr)?;
 
                 match v {
-                    Value::Integer(n) => Ok(Value::Integer(-n)),
+                    Value::Integer(n) => Ok(Value::Integer(n.wrapping_neg())),
                     Value::Float(a) => Ok(Value::Float(-a)),
                     _ => Err(PoisonKind::Undefined),
                 }
